@@ -646,7 +646,7 @@ def model_sig_fix(spec, m):
 def registry_points_allowed(spec, i):
     """Indices of point nodes that an exception of node i may be attributed to:
     every spec the node implements (upwards through dependents) or is built on
-    (downwards through dependencies).  Deliberately generous: soundness first."""
+    (downwards through dependencies).  Generous for datasources (both directions); consumers only downwards."""
     nodes = spec["nodes"]
     deps = dict((k, set(all_deps(nd))) for k, nd in enumerate(nodes))
     rdeps = dict((k, set()) for k in deps)
@@ -667,6 +667,10 @@ def registry_points_allowed(spec, i):
             if y not in seen_dn:
                 seen_dn.add(y)
                 stack.append(y)
+    if nodes[i]["kind"] not in ("datasource", "impl", "point"):
+        # a parser / combiner / rule implements no spec: only the specs it is built on (a spec whose implementation merely
+        # consumes it is a foreign component)
+        seen_up = set()
     return set(k for k in (seen_up | seen_dn) if nodes[k]["kind"] == "point")
 
 
